@@ -77,8 +77,9 @@ Proof.
       pose proof (chain_ok_asc D HDok) as Hasc. rewrite Ez in Hasc, Hb0D. cbn [asc] in Hasc. destruct Hasc as [Hall _].
       destruct Hb0D as [<-|Hb0r]; [lia|]. rewrite Forall_forall in Hall. specialize (Hall b0 Hb0r). lia.
     - unfold merged in Hzin. apply filter_In in Hzin as [_ Hz]. apply N.ltb_lt in Hz. lia. }
-  destruct (stream_num U c canon start Hid Huniq Hup Hdecl Hfilter Hstop HcU Hcl Hstartblk merged Hmode HmU
-              w ps merged_end forked eq_refl HW Htip Hagr (lnk_of_chain_ok D HDok) HbotD) as (st & Hst & Hfin).
+  assert (Hmode2 : (j_mode c =? 2) = false) by (rewrite Hmode; reflexivity).
+  destruct (stream_num U c canon start Hid Huniq Hup Hdecl Hfilter Hstop HcU Hcl Hstartblk merged Hmode2 HmU
+              w ps merged_end forked Hmode eq_refl HW Htip Hagr (lnk_of_chain_ok D HDok) HbotD) as (st & Hst & Hfin).
   fold res in Hst, Hfin.
   assert (Hnu : Forall (fun e => nu_ev e = true) (fst res)).
   { destruct (c13_stream_output_proof c w ps merged_end merged forked (fst res) (snd res)) as [Hp _].
